@@ -77,8 +77,7 @@ theorem act_stable {c : Cfg} {s s' : Sh} {pc pc' : Pc} {sp : List Pc}
   cases pc <;> act_cases h
   all_goals (first
     | (simp_all; done)
-    | (rename_i hh; obtain ⟨x, hx⟩ := Sh.isSome_cases _ hh; simp_all; done)
-    | (trace_state; sorry))
+    | (rename_i hh; obtain ⟨x, hx⟩ := Sh.isSome_cases _ hh; simp_all; done))
 
 end Godi.Conc
 
@@ -113,8 +112,7 @@ theorem act_gate_local {c : Cfg} {s s' : Sh} {pc pc' : Pc} {sp : List Pc}
   obtain ⟨l1, l2, l3, l4, l5⟩ := l
   cases pc <;> act_cases h
   all_goals (first
-    | (simp_all [Pc.winS, Pc.wf, Pc.sawDisposed, Pc.afterTake, Pc.afterTakeD, Pc.afterNil, K.inS, K.top, K.wf]; done)
-    | (trace_state; sorry))
+    | (simp_all [Pc.winS, Pc.wf, Pc.sawDisposed, Pc.afterTake, Pc.afterTakeD, Pc.afterNil, K.inS, K.top, K.wf]; done))
 
 
 theorem act_gate_tables {c : Cfg} {s s' : Sh} {pc pc' : Pc} {sp : List Pc}
@@ -130,8 +128,7 @@ theorem act_gate_tables {c : Cfg} {s s' : Sh} {pc pc' : Pc} {sp : List Pc}
   all_goals (first
     | (simp_all [Pc.winS, Pc.wf, Pc.sawDisposed, Pc.afterTake, Pc.afterTakeD, Pc.afterNil, K.inS, K.top, K.wf]; done)
     | (cases hd : s.disposables <;> simp_all; done)
-    | (simp_all [Option.isSome_iff_ne_none]; done)
-    | (trace_state; sorry))
+    | (simp_all [Option.isSome_iff_ne_none]; done))
 
 theorem act_gate_p {c : Cfg} {s s' : Sh} {pc pc' : Pc} {sp : List Pc}
     (h : act c s pc = some (pc', s', sp)) (n : Nat) (hn : n + pc.winP ≤ b2n s.pdisposed)
@@ -143,8 +140,7 @@ theorem act_gate_p {c : Cfg} {s s' : Sh} {pc pc' : Pc} {sp : List Pc}
   all_goals (first
     | (simp_all [Pc.winP, winP, K.inP]; done)
     | (simp_all [Pc.winP, winP, K.inP] <;> omega)
-    | (cases hb : s.pdisposed <;> simp_all [Pc.winP, winP, K.inP] <;> omega)
-    | (trace_state; sorry))
+    | (cases hb : s.pdisposed <;> simp_all [Pc.winP, winP, K.inP] <;> omega))
 
 
 theorem Gate.local {s : Sys} (inv : Gate s) {th : Thr} (hmem : th ∈ s.thr) : GateLocal s.sh th.pc := by
